@@ -477,6 +477,7 @@ def kdiff(res, lean, impl_bin, lines, oracle=None, classify=None, unspecified=No
         if idx < 3 or (idx % max(1, len(lines) // 5) == 0 and len(res.samples) < 8):
             res.samples.append({'op': line[:300], 'impl': io[:300]})
         kind = io.split(' ', 1)[0]
+        if len(kind) > 6 and re.fullmatch(r'[0-9a-f]+', kind): kind = 'hex'
         res.count(tag + 'out:' + kind[:24])
         if classify:
             c = classify(line, io)
@@ -500,3 +501,54 @@ def kdiff(res, lean, impl_bin, lines, oracle=None, classify=None, unspecified=No
                 res.failures.append({'kind': 'kdiff', 'case': line,
                                      'detail': 'K-diff: model=%s impl=%s' % (mo[:300], io[:300])})
     return impl_out, model_out
+
+
+# ----------------------------------------------------------------------------------------------
+# the standard shape of a check (pure / in-process properties)
+
+def corpus_lines(prop):
+    p = os.path.join(VERIF, 'corpus', prop + '.cases')
+    if not os.path.exists(p):
+        return []
+    return [l.strip() for l in open(p) if l.strip() and not l.startswith('#')]
+
+
+def standard_run(prop, tier, modules, theorems, gen, oracle, classify, rule, assumptions,
+                 driver=('drv_main', None), unspecified=None, extra=None, extra_cov=None):
+    from vlib import drivers
+    res = Result(prop, tier)
+    rnd = random.Random(seed() * 7919 + int(prop[1:]))
+    lean = lean_side(prop, modules, theorems, thorough=(tier == 'thorough'))
+    for p in lean['problems']:
+        res.failures.append({'kind': 'proof', 'detail': p})
+    name, srcs = driver
+    drv, err = build_driver(name, srcs or drivers.MAIN_SOURCES)
+    if err:
+        res.failures.append({'kind': 'kdiff', 'detail': 'cannot build implementation driver: ' + err})
+        return finish(res, lean, 'build failed')
+    lines = corpus_lines(prop) + gen(tier, rnd)
+    kdiff(res, lean, drv, lines, oracle=oracle, classify=classify, unspecified=unspecified)
+    if extra:
+        extra(res, lean, drv, tier, rnd)
+    if res.failures and tier != 'thorough' and not [f for f in res.failures if f['kind'] == 'oracle']:
+        # a tie broke but no failing input yet: failing-input search at thorough size, direct oracle only
+        more = gen('thorough', random.Random(seed() + 1000003))
+        kdiff(res, None, drv, more, oracle=oracle, classify=classify, tag='search:')
+    res.assumptions = assumptions
+    return finish(res, lean, rule, extra_cov=extra_cov)
+
+
+def standard_replay(prop, path, oracle, driver=('drv_main', None)):
+    from vlib import drivers
+    obj = json.load(open(path))
+    name, srcs = driver
+    drv, err = build_driver(name, srcs or drivers.MAIN_SOURCES)
+    if err:
+        print(err); return 2
+    case = obj.get('case')
+    if not case:
+        print('no concrete input in replay file; no longer checks:', obj.get('no_longer_checks')); return 1
+    out = run_lines(drv, [case])[0]
+    d = oracle(case, out)
+    print('case:', case); print('impl:', out); print('oracle:', d or 'holds')
+    return 1 if d else 0
